@@ -2,6 +2,8 @@ import CuqiVerif.Model.Proto
 import CuqiVerif.Model.QMat
 import CuqiVerif.Model.C20
 import CuqiVerif.Model.C20Hist
+import CuqiVerif.Model.C20_eval
+import CuqiVerif.Model.C20_chol
 open CuqiVerif CuqiVerif.Proto CuqiVerif.C20
 
 def fmtIntMat (m : List (List Int)) : String :=
@@ -38,11 +40,119 @@ def histRun (s : GState) : List String → List String → Option (List String)
     | ["T"] => histRun s rest (fmtVec s.precMean :: acc)
     | _ => none
 
+
+/-! ### glue + evaluation ops (`Model/C20_eval.lean`) -/
+
+def parseNodes (s : String) : Option NodesArg :=
+  if s = "o" then some .other
+  else match s.splitOn ":" with
+  | ["i", v] => NodesArg.int <$> v.toInt?
+  | ["t", v] => if v = "" then some (.tuple []) else NodesArg.tuple <$> (v.splitOn ",").mapM (·.toInt?)
+  | _ => none
+
+def fmtNodes : NodesArg → String
+  | .int n => s!"i:{n}"
+  | .tuple ns => "t:" ++ ",".intercalate (ns.map toString)
+  | .other => "o"
+
+def parseOptRat (s : String) : Option (Option Rat) :=
+  if s = "None" then some none else some <$> parseRat s
+
+def fmtQF (r : Except Refusal QFMat) : String :=
+  match r with
+  | .error e => "err:" ++ e.name
+  | .ok M => s!"{M.rows} {M.cols} {fmtMat (if M.cols = 0 then [] else M.toList)}"
+
+def fmtForm (f : LogForm) : String :=
+  fmtRat f.const ++ ";" ++ fmtRat f.piCoef ++ ";" ++
+    (if f.logs.isEmpty then "_" else ",".intercalate (f.logs.map fun (c, a) => fmtRat c ++ ":" ++ fmtRat a))
+
+def vecFn (l : List Rat) : Nat → Rat := fun j => l.getD j 0
+
+/-- one evaluation of a Markov-random-field prior: the broadcasting of `x - location`, the operator the
+    constructor builds for (pd, order, bc, n), the log-density as a `LogForm` and the gradient -/
+def mrfEval (fam : String) (pd : Nat) (order : Int) (bc : String) (n : Nat) (par : Rat) (x loc : List Rat) : String :=
+  let nodes : NodesArg := if pd = 1 then .int n else .tuple [n, n]
+  let Dres : Except Refusal FMat := if fam = "gmrf" then precDiffOp nodes bc order else intOp false nodes bc
+  match Dres with
+  | .error e => "err:" ++ e.name
+  | .ok D =>
+    match bshiftLen x.length loc.length with
+    | none => "err:ValueError"
+    | some len =>
+      if len ≠ D.cols then "err:ValueError" else
+      let d := bshift x.length (vecFn x) loc.length (vecFn loc)
+      let cols := List.range D.cols
+      if fam = "lmrf" then fmtForm (lmrfForm D par d) ++ " | -"
+      else if fam = "cmrf" then fmtForm (cmrfForm D par d) ++ " | " ++ fmtVec (cols.map (cmrfGrad D par d))
+      else match gmrfRank bc D.cols with
+        | .error e => "err:" ++ e.name
+        | .ok r => fmtForm (gmrfForm D r par d) ++ " | " ++ fmtVec (cols.map (gmrfGrad D par d))
+
+def stepEval : List String → Option String
+  | ["ctor1", nd, bc, dx] => do
+    let nodes ← parseNodes nd; let dx ← parseOptRat dx
+    some (fmtQF (firstCtor nodes bc dx))
+  | ["ctor2", nd, bc, dx] => do
+    let nodes ← parseNodes nd; let dx ← parseOptRat dx
+    some (fmtQF (secondCtor nodes bc dx))
+  | ["ctorP", nd, bc, o] => do
+    let nodes ← parseNodes nd; let o ← o.toInt?
+    some (fmtQF ((fun P => P.scale 1) <$> precCtor nodes bc o))
+  | ["mrfnodes", sh] =>
+    if sh = "None" then some (match mrfNodes none with | .error e => "err:" ++ e.name | .ok v => fmtNodes v)
+    else do
+      let l ← parseNatList sh
+      some (match mrfNodes (some l) with | .error e => "err:" ++ e.name | .ok v => fmtNodes v)
+  | ["gmrfrank", bc, dim] => do
+    let dim ← dim.toNat?
+    some (match gmrfRank bc dim with | .error e => "err:" ++ e.name | .ok r => toString r)
+  | ["mrf", fam, pd, o, bc, n, par, x, loc] => do
+    let pd ← pd.toNat?; let o ← o.toInt?; let n ← n.toNat?; let par ← parseRat par
+    let x ← parseVec x; let loc ← parseVec loc
+    if fam ≠ "lmrf" ∧ fam ≠ "cmrf" ∧ fam ≠ "gmrf" then none else
+    if pd ≠ 1 ∧ pd ≠ 2 then none else
+    some (mrfEval fam pd o bc n par x loc)
+  | _ => none
+
+
+/-! ### sparse_cholesky / GMRF factor ops (`Model/C20_chol.lean`) -/
+
+/-- `cholP pd order bc n reg`: the factor `GMRF.__init__` asks `sparse_cholesky` for — of the model's own precision
+    `gram (diffOp…)` (`reg = 0`, zero-boundary branch) or of `P + sqrt(eps)·I` (`reg = 1`, periodic / Neumann branch).
+    Output `L | d | cert | closed`: `cert` = the exact re-multiplication check, `closed` = agreement with the closed form
+    `tridiagL` / `tridiagD` (1-D, order 1, zero boundary; `-` elsewhere). -/
+def cholP (pd order : Nat) (bc : BC) (n : Nat) (reg : Bool) : String :=
+  if !accepts order bc n then "err" else
+  let P := toQ (gram (if pd = 1 then diffOp order bc n else diffOp2D order bc n))
+  let A := if reg then regularised P else P
+  match sparseCholesky A with
+  | none => "refused"
+  | some (L, d) =>
+    let cert := cholCheck A L d
+    let closed :=
+      if pd = 1 ∧ order = 1 ∧ bc = .zero ∧ !reg then
+        fmtBool (L == QMat.ofFn n n tridiagL && d == (List.range n).map tridiagD)
+      else "-"
+    fmtMat L ++ " | " ++ fmtVec d ++ " | " ++ fmtBool cert ++ " | " ++ closed
+
+def stepChol : List String → Option String
+  | ["cholP", pd, o, b, n, reg] => do
+    let pd ← pd.toNat?; let o ← o.toNat?; let bc ← BC.ofString b; let n ← n.toNat?
+    if pd ≠ 1 ∧ pd ≠ 2 then none else
+    some (cholP pd o bc n (reg = "1"))
+  | ["chol", A] => do
+    let A ← parseMat A
+    some (match sparseCholesky A with
+      | none => "refused"
+      | some (L, d) => fmtMat L ++ " | " ++ fmtVec d ++ " | " ++ fmtBool (cholCheck A L d) ++ " | -")
+  | _ => none
+
 def step : List String → String
   | ["gmrfhist", P, p0, m0, script] =>
     match parseMat P, parseRat p0, parseVec m0 with
     | some P, some p0, some m0 =>
-      match histRun { P := P, prec := p0, mean := m0 } (script.splitOn "/") [] with
+      match histRun { P := P, prec := p0, mean := m0 } (script.splitOn "@") [] with
       | some outs => if outs.isEmpty then "_" else " | ".intercalate outs
       | none => "bad-op"
     | _, _, _ => "bad-op"
@@ -77,6 +187,6 @@ def step : List String → String
         s!"{declaredRank bc (n*n)} {QMat.rank (toQ (gram (diffOp2D o bc n)))}"
       else "err"
     | _, _, _ => "bad-op"
-  | _ => "bad-op"
+  | toks => ((stepEval toks).orElse (fun _ => stepChol toks)).getD "bad-op"
 
 def main : IO Unit := runDriver step
